@@ -137,7 +137,7 @@ def generate(repo, root, use_pinned_for=(), pin=False):
     for f in FILES:
         try:
             files[f] = FileIndex(open(os.path.join(repo, f), errors="replace").read())
-        except (OSError, Untranslatable) as ex:
+        except (OSError, Untranslatable, RecursionError, KeyError, IndexError, TypeError, ValueError, AttributeError) as ex:
             detail[f] = "cannot read/tokenize: %s" % ex
     pinned, porder = ({}, []) if pin or not os.path.exists(PINNED_PATH) else split_pinned(open(PINNED_PATH).read())
     forced = {n: True for n, (ty, _) in pinned.items() if ty.startswith("res ")}
@@ -166,6 +166,9 @@ def generate(repo, root, use_pinned_for=(), pin=False):
             status[coqname] = "translated"
         except Untranslatable as ex:
             status[coqname] = "fallback_to_pinned: %s" % ex
+        except (RecursionError, KeyError, IndexError, TypeError, ValueError, AttributeError, AssertionError) as ex:
+            # a defect of the translator on code it was not written for must not become an alarm
+            status[coqname] = "fallback_to_pinned: translator error %s: %s" % (type(ex).__name__, ex)
     # functions pulled in as dependencies (helpers called by the targets)
     for key, info in tr.memo.items():
         if not isinstance(info, Exception) and info.coqname not in texts and info.coqname not in use_pinned_for:
